@@ -629,6 +629,17 @@ func (c *EvalCtx) call(e *ECall) Value {
 			return Ite(c.e.ifaceNil(i), Num(0), c.e.ifaceTag(i))
 		}
 		return c.fail("typeOf of non-interface %T", v)
+	case "elemTypeOf":
+		if i, ok := c.eval(arg(0)).(IfaceV); ok && i.Sym == nil && i.Dyn != nil {
+			if p, isPtr := i.Dyn.(*types.Pointer); isPtr {
+				return TypeV{p.Elem()}
+			}
+		}
+		return c.fail("elemTypeOf: not a concrete pointer in an interface")
+	case "instream":
+		r := App("tq_in", SInt, c.term(arg(0)))
+		r.Hi = big.NewInt(255)
+		return r
 	case "$assert":
 		v := c.eval(arg(0))
 		tv, ok := c.eval(arg(1)).(TypeV)
@@ -891,8 +902,15 @@ func (e *Engine) ghostSort(name string) string {
 	return SInt
 }
 
+func (e *Engine) freshGhost(st *State, name string) Value {
+	if e.ghostSort(name) == "bytes" {
+		return e.freshStr(st, "ghost_"+name)
+	}
+	return e.freshVar("ghost_"+name, e.ghostSort(name))
+}
+
 func (e *Engine) ghostInit(st *State, name string) Value {
-	v := e.freshVar("ghost_"+name, e.ghostSort(name))
+	v := e.freshGhost(st, name)
 	// ghost variables are created on first use in the *initial* snapshot too:
 	// share through initGhost so that old(ghost.x) and ghost.x agree until modified
 	if g, ok := e.initGhost[name]; ok {
@@ -1007,7 +1025,7 @@ func (c *EvalCtx) havoc(l Loc, hint string) {
 	case l.Ptr != nil:
 		c.e.storePtr(c.st, *l.Ptr, c.e.fresh(c.st, l.Ptr.Elem, hint))
 	case l.Ghost != "":
-		c.st.ghost[l.Ghost] = c.e.freshVar("ghost_"+l.Ghost, c.e.ghostSort(l.Ghost))
+		c.st.ghost[l.Ghost] = c.e.freshGhost(c.st, l.Ghost)
 	case l.All != nil:
 		if l.All.Obj != nil {
 			old := c.e.heapGet(c.st, l.All.Obj).(ArrV)
@@ -1069,6 +1087,10 @@ func (c *EvalCtx) assume(x Expr) {
 		if e.Op == "==" {
 			if l, ok := c.loc(e.X); ok {
 				rhs := c.eval(e.Y)
+				if sv, isStr := rhs.(StrV); isStr && l.Ghost != "" {
+					c.st.ghost[l.Ghost] = sv
+					return
+				}
 				switch rhs.(type) {
 				case SliceV, PtrV, MapV:
 					switch {
